@@ -415,6 +415,7 @@ type fakeMeta struct {
 	calls     []*saveCall
 	loads     int
 	loadErr   error
+	docBucket string // non-empty: stored documents carry this bucketUuid (not the one Load is called with)
 	loadDelay time.Duration
 	loadOmit  map[uint16]bool // vBuckets left out of the dump Load returns
 	// next outcome for non-blocking saves (nextFn, if set, decides per call)
@@ -516,7 +517,7 @@ func (m *fakeMeta) Load(vbIds []uint16, bucketUUID string) (*wrapper.ConcurrentS
 				Checkpoint: &models.CheckpointDocumentCheckpoint{
 					VbUUID: t.UUID, SeqNo: t.Seq,
 					Snapshot: &models.CheckpointDocumentSnapshot{StartSeqNo: t.Start, EndSeqNo: t.End},
-				}, BucketUUID: bucketUUID,
+				}, BucketUUID: map[bool]string{true: bucketUUID, false: m.docBucket}[m.docBucket == ""],
 			})
 			exist = true
 		} else {
